@@ -12,31 +12,49 @@ QUICK_MS = 10000
 THOROUGH_MS = 60000
 
 
-def _cvc5_check(smt2_text, timeout_ms):
+def _cvc5_worker(smt2_text, timeout_ms, conn):
     try:
         import cvc5
-    except Exception as e:  # pragma: no cover
-        return "unknown", "cvc5 not importable: %s" % e
-    slv = cvc5.Solver()
-    slv.setOption("tlimit", str(int(timeout_ms)))
-    try:
-        slv.setOption("nl-cov", "true")
-    except Exception:
-        pass
-    parser = cvc5.InputParser(slv)
-    parser.setStringInput(cvc5.InputLanguage.SMT_LIB_2_6, "(set-logic ALL)\n" + smt2_text, "q")
-    sm = parser.getSymbolManager()
-    out = ""
-    try:
+        slv = cvc5.Solver()
+        slv.setOption("tlimit", str(int(timeout_ms)))
+        for opt, val in (("nl-cov", "true"),):
+            try:
+                slv.setOption(opt, val)
+            except Exception:
+                pass
+        parser = cvc5.InputParser(slv)
+        parser.setStringInput(cvc5.InputLanguage.SMT_LIB_2_6, "(set-logic ALL)\n" + smt2_text, "q")
+        sm = parser.getSymbolManager()
+        out = ""
         while True:
             cmd = parser.nextCommand()
             if cmd.isNull():
                 break
             out += str(cmd.invoke(slv, sm))
-    except Exception as e:
-        return "unknown", "cvc5 error: %s" % e
-    out = out.strip().splitlines()
-    return (out[-1] if out else "unknown"), "cvc5"
+        lines = out.strip().splitlines()
+        conn.send(lines[-1] if lines else "unknown")
+    except Exception as e:  # pragma: no cover
+        conn.send("unknown (cvc5 error: %s)" % e)
+
+
+def _cvc5_check(smt2_text, timeout_ms):
+    """cvc5 (python API) in a forked child with a hard kill: its own time limit is not always honoured"""
+    import multiprocessing as mp
+    ctx = mp.get_context("fork")
+    parent, child = ctx.Pipe(duplex=False)
+    p = ctx.Process(target=_cvc5_worker, args=(smt2_text, timeout_ms, child), daemon=True)
+    p.start()
+    child.close()
+    verdict = "unknown (cvc5 killed after hard timeout)"
+    if parent.poll(timeout_ms / 1000.0 + 2.0):
+        try:
+            verdict = parent.recv()
+        except EOFError:
+            verdict = "unknown (cvc5 crashed)"
+    if p.is_alive():
+        p.kill()
+    p.join(1)
+    return verdict, "cvc5"
 
 
 def model_to_dict(m):
@@ -58,7 +76,7 @@ def model_to_dict(m):
     return d
 
 
-def prove(goal, assumptions=(), timeout_ms=None, tier="quick", both=False, name="", tactic=None):
+def prove(goal, assumptions=(), timeout_ms=None, tier="quick", both=False, name="", tactic=None, fallback=True):
     """Validity of assumptions => goal. Returns core.Result."""
     if timeout_ms is None:
         timeout_ms = QUICK_MS if tier == "quick" else THOROUGH_MS
@@ -79,7 +97,7 @@ def prove(goal, assumptions=(), timeout_ms=None, tier="quick", both=False, name=
             model = model_to_dict(s.model())
         except Exception:
             model = None
-    if r == z3.unknown or both or tier == "thorough":
+    if fallback and (r == z3.unknown or both or tier == "thorough"):
         v2, d2 = _cvc5_check(text, timeout_ms)
         detail += "; cvc5: %s" % v2
         if r == z3.unknown and v2 in ("sat", "unsat"):
